@@ -43,7 +43,12 @@ func TestOpConstants(t *testing.T) {
 
 // checkOpString checks the rendering of o against the set semantics and
 // returns the parsed names.
-func checkOpString(o fsnotify.Op, full []string) error {
+func checkOpString(o fsnotify.Op, full []string) (err error) {
+	defer func() {
+		if r := recover(); r != nil {
+			err = fmt.Errorf("Op(%#x).String() panicked: %v", uint32(o), r)
+		}
+	}()
 	s := o.String()
 	defined := o & definedMask
 	if defined == 0 {
@@ -87,7 +92,12 @@ func checkOpString(o fsnotify.Op, full []string) error {
 	return nil
 }
 
-func checkHas(o, h fsnotify.Op) error {
+func checkHas(o, h fsnotify.Op) (err error) {
+	defer func() {
+		if r := recover(); r != nil {
+			err = fmt.Errorf("Op(%#x).Has(%#x) panicked: %v", uint32(o), uint32(h), r)
+		}
+	}()
 	want := o&h != 0
 	if got := o.Has(h); got != want {
 		return fmt.Errorf("Op(%#x).Has(%#x)=%v, want %v", uint32(o), uint32(h), got, want)
@@ -99,7 +109,12 @@ func checkHas(o, h fsnotify.Op) error {
 }
 
 // checkEventString parses Event.String back into its parts.
-func checkEventString(name, from string, o fsnotify.Op) error {
+func checkEventString(name, from string, o fsnotify.Op) (err error) {
+	defer func() {
+		if r := recover(); r != nil {
+			err = fmt.Errorf("Event{%q,%#x,from %q}.String() panicked: %v", name, uint32(o), from, r)
+		}
+	}()
 	e := fsnotify.VerifMakeEvent(name, from, o)
 	s := e.String()
 	os := o.String()
